@@ -21,19 +21,33 @@ def run(tier, seed, replay=None):
     cfg = "ControlSession_c19_quick.cfg" if quick else "ControlSession_c19_full.cfg"
     r = vlib.tlc_must_pass(SPEC, cfg, wd, workers=4 if quick else 8, timeout=1500)
     wit = vlib.witnesses(SPEC, "ControlSession_c19_quick.cfg", ["W19_NoRedaction", "W19_NoRefusal", "W19_NoCaseVariantAccepted"], wd, workers=2)
-    vectors = os.path.join(r.dir, "c19.ndjson")
-    nvec = sum(1 for _ in open(vectors))
     vctl = vlib.build_harness("vctl")
-    args = ["c19", "-vectors", vectors, "-receptor", vctl_common.receptor_copy(wd), "-work", wd, "-seed", str(seed)]
-    if replay:
-        args += ["-replay", replay]
-    res = vlib.harness_json(vctl, args, wd, timeout=3400)
-    if res.get("inconclusive"):
-        raise vlib.Inconclusive("; ".join(res["inconclusive"][:5]))
-    if not replay and res["evaluations"] != nvec:
-        raise vlib.Inconclusive("harness replayed %d of %d histories" % (res["evaluations"], nvec))
+    rbin = vctl_common.receptor_copy(wd)
+    runs = [(cfg, r)]
+    if not quick and not replay:
+        # second export: the covering family of key sets with longer histories (TLC explores the same MaxOps)
+        runs.append(("ControlSession_c19_full_b.cfg", vlib.tlc_must_pass(SPEC, "ControlSession_c19_full_b.cfg", wd, workers=8, timeout=1500)))
+    res = {"evaluations": 0, "distinct": 0, "violations": [], "inconclusive": [], "samples": [], "counters": {}, "notes": []}
+    nvec = 0
+    for i, (cname, rr) in enumerate(runs):
+        vectors = os.path.join(rr.dir, "c19.ndjson")
+        nvec += sum(1 for _ in open(vectors))
+        args = ["c19", "-vectors", vectors, "-receptor", rbin, "-work", wd, "-seed", str(seed + 1000 * i)]
+        if replay:
+            args += ["-replay", replay]
+        one = vlib.harness_json(vctl, args, wd, timeout=3400, name="harness%d" % i)
+        for k in ("evaluations", "distinct"):
+            res[k] += one[k]
+        for k in ("violations", "inconclusive", "samples", "notes"):
+            res[k] += one.get(k) or []
+        for k, n in one["counters"].items():
+            res["counters"][k] = res["counters"].get(k, 0) + n
     for viol in res["violations"]:
         v.violation(viol["sig"], viol["what"], viol["replay"])
+    if res.get("inconclusive") and not v.violations:
+        raise vlib.Inconclusive("; ".join(res["inconclusive"][:5]))
+    if not replay and res["evaluations"] != nvec and not v.violations:
+        raise vlib.Inconclusive("harness replayed %d of %d histories" % (res["evaluations"], nvec))
     c = res["counters"]
     if not replay and not res["violations"] and (c.get("status_replies_verified", 0) == 0 or c.get("refusals_verified", 0) == 0):
         raise vlib.Inconclusive("vacuous run: %s" % c)
